@@ -21,7 +21,7 @@ static void
 on_alarm (int)
 {
   // a request ran away (e.g. `elem' over a 2^60-address set): say so and stop.
-  static char const msg[] = "E timeout\n.\n";
+  static char const msg[] = "\nE timeout\n.\n";
   if (write (1, msg, sizeof msg - 1) < 0)
     _exit (4);
   _exit (3);
@@ -68,6 +68,7 @@ run (compiled &c, stack::uptr in, std::vector <stack::uptr> *collect = nullptr)
   scon_guard sg {sc, *c.o};
   c.origin->set_next (sc, std::move (in));
   long n = 0;
+  size_t bytes = 0;
   try
     {
       while (auto stk = c.o->next (sc))
@@ -75,7 +76,16 @@ run (compiled &c, stack::uptr in, std::vector <stack::uptr> *collect = nullptr)
 	  if (collect)
 	    collect->push_back (std::make_unique <stack> (*stk));
 	  else
-	    std::cout << "R " << show_stack (*stk) << "\n";
+	    {
+	      std::string line = show_stack (*stk);
+	      bytes += line.size ();
+	      std::cout << "R " << line << "\n";
+	    }
+	  if (bytes > 400000)
+	    {
+	      std::cout << "E budget more than 400000 bytes of results\n";
+	      return false;
+	    }
 	  if (++n > g_budget)
 	    {
 	      std::cout << "E budget more than " << g_budget << " results\n";
